@@ -1085,10 +1085,22 @@ class FortranFile:
                     if FRegex.FIXED_CONT.match(tmp_line):
                         prev_line = tmp_line
                         tmp_line = self.get_line(line_ind, pp_content)
-                        if line_ind == line_no - 1:
+                        if not pre_lines:
                             curr_line = " " * 6 + curr_line[6:]
                         else:
                             pre_lines[-1] = " " * 6 + prev_line[6:]
+                        # Comment and blank lines between continuation lines are
+                        # not part of the statement
+                        while line_ind > 0 and (
+                            tmp_line.strip() == ""
+                            or (
+                                FRegex.FIXED_COMMENT.match(tmp_line)
+                                and not FRegex.FIXED_OPENMP.match(tmp_line)
+                            )
+                        ):
+                            pre_lines.append("")
+                            line_ind -= 1
+                            tmp_line = self.get_line(line_ind, pp_content)
                         pre_lines.append(tmp_line)
                     else:
                         break
